@@ -4,6 +4,8 @@
 From Coq Require Import List QArith ZArith Bool NArith Permutation.
 From VP Require Import Base.Util Base.Dim Base.Val Model.CollectQ Model.Gate Model.QVec Proofs.DimProofs Proofs.GateProofs
   Proofs.QVecProofs Proofs.BindProofs.
+(* concrete inputs meeting the premises of the implications below (and of C06's): checked whenever this file is *)
+From VP Require Proofs.NonVacuity456.
 Import ListNotations.
 
 (* the argument passes exactly when the declaration is a wildcard (zero-valued unit expression / AnyDimension),
